@@ -42,12 +42,10 @@
 #define NTILE 2
 #endif
 
-/* The flows of a DTD task live in trailing storage behind parsec_dtd_task_t and are reached by the
- * TASK_FLOW_OF() macro through char* arithmetic past the end of the task struct (struct-hack idiom).
- * CBMC turns every write through such a pointer into a byte-level rewrite of the whole task object.
- * spec.py therefore patches (regex on an overlay copy, re-applied from the repository on every run) the ONE
- * macro TASK_FLOW_OF in insert_function_internal.h to the typed equivalent &((vtask_t*)task)->f[i];
- * the layout identity offsetof(vtask_t, f) == sizeof(parsec_dtd_task_t) is checked at compile time below. */
+/* The flows of a DTD task live in trailing storage behind parsec_dtd_task_t and are reached by the real
+ * TASK_FLOW_OF() macro through char* arithmetic past the end of the task struct.  The harness task object
+ * provides that storage as typed members right behind the task (layout identity checked at compile time);
+ * tasks are always passed around as pointers to the WHOLE object (as a mempool returns them). */
 #include "parsec/interfaces/dtd/insert_function_internal.h"
 typedef struct vp_vtask_s {
     parsec_dtd_task_t       t;
